@@ -237,7 +237,13 @@ def judgeAll (g : Graph) (seqTasks : List String) (ops : List Json) (trigs : Lis
                 let survives := a.isNone && match f with
                   | some (x :: xs) => after.dbStates.any fun r => r.1 == m && inter (x :: xs) r.2
                   | _ => false
-                fails := fails ++ [⟨if seq then some "sequential-task"
+                -- shape (iii) of finding `sequential-task`: an instance of a sequential task (never "parentless" for
+                -- the command) that is not in the pool and has no off-group TaskDef prerequisite to force: the
+                -- command has nothing to spawn it with
+                let seqNotSpawned := seq && b.isNone && (match inst m with
+                  | some d => !d.parentlessIcp && d.tdefAtoms.all fun a => G.contains (a.pt, a.task)
+                  | none => false)
+                fails := fails ++ [⟨if seqNotSpawned then some "sequential-task"
                     else if survives then some "queued-row-survives-removal" else none,
                   s!"start-not-launched: op {i}: group-start member {showKey m} (before: {(b.map (·.st)).getD "not in the pool"}) not launched by the next main loop (op {j})"⟩]
               for l in ls do
@@ -266,7 +272,8 @@ def judgeAll (g : Graph) (seqTasks : List String) (ops : List Json) (trigs : Lis
                 let implicit := match inst m with
                   | some d => !(d.tdefAtoms.contains ⟨av.1, av.2.1, av.2.2.1⟩)
                   | none => false
-                let key := if otherFlow then some "other-flow-member" else if implicit || seq then some "sequential-task" else none
+                -- (shape (ii) of `sequential-task`: the unsatisfied atom is the implicit previous-instance prerequisite)
+                let key := if otherFlow then some "other-flow-member" else if implicit then some "sequential-task" else none
                 fails := fails ++ [⟨key, s!"off-group-unsatisfied: op {i}: member {showKey m} (before: {(b.map (·.st)).getD "not in the pool"}, flows {y.fl}) still waits for the off-group prerequisite {av.1}/{av.2.1}:{av.2.2.1} after the trigger"⟩]
       | none => pure ()
       -- in_group_order: the first launch of a non-start member in the triggered flow, before the next trigger
@@ -309,7 +316,8 @@ def judgeAll (g : Graph) (seqTasks : List String) (ops : List Json) (trigs : Lis
                   let otherFlow : Bool := match b, f with
                     | some x, some ff => !(inter ff x.fl) && !(ff.isEmpty && x.fl.isEmpty)
                     | _, _ => false
-                  let key := if implicit || seq then some "sequential-task"
+                  -- (shape (i) of `sequential-task`: an unsatisfied in-group atom is the implicit prerequisite)
+                  let key := if implicit then some "sequential-task"
                     else if viaAbs then some "abs-trigger-in-group"
                     else if otherFlow then some "other-flow-member"
                     else if liveParent then some "live-parent-any-output" else none
